@@ -193,10 +193,17 @@ fn tlv_copies_agree(t: &v2::TypeLengthValue) -> bool {
 /// `v1::Header::try_from(&[u8])` on a private copy of the input; the copy is overwritten and
 /// dropped before the owned header's views are read.
 pub fn v1_bytes(input: &[u8], full: bool) -> Value {
+    v1_bytes_opt(input, full, true)
+}
+
+/// `copy = false`: parse the caller's buffer in place (buffers of several GiB are not copied and
+/// not overwritten).
+pub fn v1_bytes_opt(input: &[u8], full: bool, copy: bool) -> Value {
     let r = guard(|| {
-        let mut scratch = input.to_vec();
+        let mut scratch = if copy { input.to_vec() } else { Vec::new() };
         let (mut out, owned) = {
-            let result = v1::Header::try_from(&scratch[..]);
+            let src: &[u8] = if copy { &scratch[..] } else { input };
+            let result = v1::Header::try_from(src);
             let inc = result.is_incomplete();
             let cmp = result.is_complete();
             match &result {
@@ -484,10 +491,15 @@ fn v2_ok(h: &v2::Header, full: bool) -> Value {
 }
 
 pub fn v2_bytes(input: &[u8], full: bool) -> Value {
+    v2_bytes_opt(input, full, true)
+}
+
+pub fn v2_bytes_opt(input: &[u8], full: bool, copy: bool) -> Value {
     let r = guard(|| {
-        let mut scratch = input.to_vec();
+        let mut scratch = if copy { input.to_vec() } else { Vec::new() };
         let (mut out, owned) = {
-            let result = v2::Header::try_from(&scratch[..]);
+            let src: &[u8] = if copy { &scratch[..] } else { input };
+            let result = v2::Header::try_from(src);
             let inc = result.is_incomplete();
             let cmp = result.is_complete();
             match &result {
@@ -555,6 +567,20 @@ pub fn auto_bytes(input: &[u8]) -> Value {
         }
     });
     r.unwrap_or_else(|p| panic_value(&p))
+}
+
+/// The byte entry points on a buffer of several GiB, parsed in place (the text entry points
+/// would have to validate all of it as UTF-8 first and are not run).
+pub fn huge_entry_points(buf: &[u8]) -> Value {
+    let na = json!({"k": "na"});
+    json!({
+        "v1b": v1_bytes_opt(buf, true, false),
+        "v1s": na.clone(),
+        "v1fh": na.clone(),
+        "v1fa": na,
+        "v2": v2_bytes_opt(buf, true, false),
+        "auto": auto_bytes(buf),
+    })
 }
 
 /// All six entry points on one buffer.
